@@ -108,7 +108,7 @@ def value_forms(kinds, values=None):
     if values:
         return [[v] for v in values]
     if "str" in kinds:
-        out += [[STRVALS[0]], [STRVALS[2]]]
+        out += [[STRVALS[0]], [STRVALS[2]], [b"text:\nmulti\n..line\n.\n"]]
     if "list" in kinds:
         out += [[b"[", STRVALS[1], b"]"], [b"[", STRVALS[0], b",", STRVALS[4], b"]"]]
     if "num" in kinds:
